@@ -605,18 +605,27 @@ class RootPath(Path):
     def __str__(self) -> str:
         return str(self.path)
 
-    def evaluate(self, context: FilterContext) -> object:
-        return NodeList(
-            self.path.finditer(context.root, filter_context=context.extra_context)
+    def _root_node(self, context: FilterContext) -> JSONPathMatch:
+        # The root is a JSON value already. If it is a string, it is not JSON
+        # text to be decoded again.
+        root = context.root
+        return JSONPathMatch(
+            filter_context=context.extra_context,
+            obj=[root] if self.path.fake_root else root,
+            parent=None,
+            path=context.env.root_token,
+            parts=(),
+            root=root,
         )
+
+    def evaluate(self, context: FilterContext) -> object:
+        return NodeList(self.path.resolve(self._root_node(context)))
 
     async def evaluate_async(self, context: FilterContext) -> object:
         return NodeList(
             [
                 match
-                async for match in await self.path.finditer_async(
-                    context.root, filter_context=context.extra_context
-                )
+                async for match in self.path.resolve_async(self._root_node(context))
             ]
         )
 
